@@ -117,7 +117,14 @@ CHECKS.update({
         "and off: lenient never raises, strict raises iff lenient warns, str() is a normal form; plus editing histories;", "DESIGN.md §5 C15"),
  "C17": bounded_only("the multiline codec is checked on all line lists of length <= 3/4 over 14 line kinds, and seeded copyright documents are "
         "dumped, strictly re-parsed and re-dumped;", "DESIGN.md §5 C17"),
- "C19": bounded_only("real file:// mirrors for seeded histories (SHA1 index, gz, ed patches from an independent differ) with the local copy in every "
+ "C19": dict(bounded_only("", "DESIGN.md §5 C19"),
+        text="replace_file is verified from its AST against a ghost file system in which open, every write, close and rename may fail: "
+             "normal exit => exactly the joined lines in the local file, no temporary file, nothing else changed; every exceptional exit "
+             "(any failure point, the i-th write via one loop invariant) => local file untouched and no temporary file. update_file, "
+             "download_file and the hash / index logic are decided by a bounded stand-in on real file:// mirrors (histories of 1-4 "
+             "versions, local copy in every state, unusable indexes, garbled patches, injected open / write / rename faults).",
+        technique="contract-based deductive verification with ghost file-system state and exceptional postconditions (SMT) + bounded stand-in"),
+ "C19-old": bounded_only("real file:// mirrors for seeded histories (SHA1 index, gz, ed patches from an independent differ) with the local copy in every "
         "state, unusable indexes, garbled/truncated patches and injected open / i-th write / rename failures;", "DESIGN.md §5 C19",
         "fault injection patches module attributes from /verif, not /repo"),
 })
